@@ -133,7 +133,7 @@ def Guard.calls : Guard → List String
   | .verifyAccess => ["auth.VerifyAccess"]
   | .activeClient | .activeAttacher => ["clients.FindActiveClientInfo", "clients.Deactivate"]
   | .docByRef => ["documents.FindDocInfoByRefKey", "revisions.Create"]
-  | .attachedTo => ["clientInfo.EnsureDocumentAttached"]
+  | .attachedTo => ["clientInfo.EnsureDocumentAttached", "clientInfo.EnsureDocumentAttachedOrAttaching"]
   | .docByKey => ["documents.FindDocInfoByKey", "documents.GetDocumentSummary"]
   | .docKeyFree => ["documents.CreateDocument"]
   | .schemaByName => ["schemas.GetSchema", "schemas.GetSchemas", "schemas.RemoveSchema"]
@@ -401,6 +401,17 @@ theorem leaks_exact :
       ((e.2.guards.all Guard.isLocal = false ∨ e.2.effect.isLocal = false) ↔
         (svc = .yorkie ∧ e.1 ∈ ["DetachChannel", "RefreshChannel"])) := by decide
 
+/-- where `failed_precondition` can come from in `foreign_denied`: exactly the three Yorkie
+handlers that check the client's attachment table (`EnsureDocumentAttached` in
+PushPullChanges, `EnsureDocumentAttachedOrAttaching` in DetachDocument / RemoveDocument), and
+in each the check follows the client lookup and precedes the document lookup -/
+theorem attachedTo_exact :
+    ∀ svc ∈ Svc.all, ∀ e ∈ handlersOf svc,
+      (e.2.guards.contains .attachedTo = true ↔
+        (svc = .yorkie ∧ e.1 ∈ ["PushPullChanges", "DetachDocument", "RemoveDocument"])) ∧
+      (e.2.guards.contains .attachedTo = true →
+        e.2.guards = [.verifyAccess, .activeClient, .attachedTo, .docByRef]) := by decide
+
 /-- the request names, in a field the handler consults and does not leak, an object of a
 project outside the credential's authority -/
 def foreignVia (auth : List Proj) (h : Handler) (r : Req) : Bool :=
@@ -423,7 +434,9 @@ every procedure of the model table (= the generated table, by `classification_*`
 configuration, credential kind and target kind: if the request names – in a field the handler
 consults – an object of a project outside the credential's authority, the decision is
 not-found / unauthenticated / permission-denied; the only other codes are
-`failed_precondition` from `EnsureDocumentAttached` (the document id is looked up in the
+`failed_precondition` from `EnsureDocumentAttached` / `EnsureDocumentAttachedOrAttaching`
+(PushPullChanges, and since /repo 7f055575 DetachDocument and RemoveDocument, where it precedes
+the document lookup; the document id is looked up in the
 *client's* attachment table) and the panic of a credential of the wrong kind. -/
 theorem foreign_denied :
     ∀ cfg ∈ cfgs, ∀ svc ∈ Svc.all, ∀ e ∈ handlersOf svc, ∀ c ∈ credsOf svc, ∀ t ∈ Target.all,
